@@ -26,7 +26,7 @@ def dotted(groups) -> str:
     return ".".join(str(g) for g in groups)
 
 
-HAS_DIGIT_DOT_DIGIT = re.compile(r"[0-9]\.[0-9]")
+HAS_DIGIT_DOT_DIGIT = re.compile(r"\d\.\d")  # \d: any Unicode decimal digit - the statement says "digit", and int() reads them all
 
 
 def must_raise(text: str) -> bool:
